@@ -55,7 +55,7 @@ Lemma read_eff_keeps E e s : e_mode E = MR -> eff_reads e = true -> not_writing 
   s_node (snd (do_eff E e s)) = s_node s /\ not_writing (s_h (snd (do_eff E e s))) = true.
 Proof.
   intros Hm He Hw. destruct e; try discriminate; cbn [do_eff]; rewrite ?Hm; cbn [by_mode];
-    unfold open_read; destruct (s_node s); cbn; auto.
+    unfold open_read; destruct (s_node s) eqn:Hn; cbn; rewrite ?Hn; auto.
 Qed.
 
 Lemma session_keeps E calls : e_mode E = MR -> forallb eff_reads calls = true -> forall s,
@@ -140,4 +140,59 @@ Proof.
     destruct (srun a E base cur F) as [[|] F']; cbn [snd] in *.
     + rewrite (IHb H2 E base cur F' q). apply Ha.
     + apply Ha.
+Qed.
+
+(* ------------------------------------------------------------------ save in append mode *)
+(* the old content of a path is still there, possibly with more behind it *)
+Definition extends (old final : node) : Prop :=
+  final = old \/ exists b tail, old = Some (File b) /\ final = Some (File (b ++ tail)).
+
+Lemma extends_refl n : extends n n.
+Proof. left; reflexivity. Qed.
+
+Lemma extends_trans a b c : extends a b -> extends b c -> extends a c.
+Proof.
+  intros [H1|[x [t [H1 H1']]]] [H2|[y [u [H2 H2']]]]; subst.
+  - left; reflexivity.
+  - right. exists y, u. split; reflexivity.
+  - right. exists x, t. split; reflexivity.
+  - inversion H2; subst. right. exists x, (t ++ u). split; [reflexivity | rewrite app_assoc; reflexivity].
+Qed.
+
+Lemma for_loop_extends body base q :
+  (forall c G, G q <> None -> extends (G q) (snd (body c G) q)) ->
+  forall cnt i F, F q <> None -> extends (F q) (snd (for_loop body base cnt i F) q).
+Proof.
+  intros Hb. induction cnt as [|cnt IH]; intros i F Hq; cbn [for_loop]; [apply extends_refl|].
+  pose proof (Hb (numbered base i) F Hq) as H1.
+  destruct (body (numbered base i) F) as [[|] F']; cbn [snd] in *; [|exact H1].
+  eapply extends_trans; [exact H1|]. apply IH.
+  destruct H1 as [H1|[b [t [_ H1]]]]; rewrite H1; [exact Hq | discriminate].
+Qed.
+
+Theorem save_append_extends p : check_save_append p = true ->
+  forall E base cur F q, F q <> None -> extends (F q) (snd (srun p E base cur F) q).
+Proof.
+  induction p as [| i | c m f | a IHa b IHb | body IH | a IHa b IHb]; intros Hc E base cur F q Hq;
+    cbn [srun check_save_append] in *.
+  - apply extends_refl.
+  - destruct (se_unk E i); apply extends_refl.
+  - destruct m; try discriminate.
+    destruct (open_write_close c {| e_mode := MA; e_force := farg_val E f; e_unk := se_unk E |} (F cur)
+                               (se_new E (snd cur))) as [o n'] eqn:Ho.
+    cbn [snd]. unfold upd. destruct (path_eqb q cur) eqn:Hqc; [|apply extends_refl].
+    apply path_eqb_eq in Hqc. subst q.
+    destruct (F cur) as [cont|] eqn:HF; [|contradiction].
+    destruct (append_keeps_old_node c Hc (se_unk E) (farg_val E f) cont (se_new E (snd cur))) as [_ H].
+    cbn zeta in H. rewrite Ho in H. cbn [snd] in H.
+    destruct H as [H|[old [H1 H2]]]; [left; exact H|].
+    right. exists old, (se_new E (snd cur)). subst cont. split; [reflexivity | exact H2].
+  - apply andb_true_iff in Hc. destruct Hc as [H1 H2].
+    destruct (Nat.eqb (se_frames E) 1); [apply IHa | apply IHb]; assumption.
+  - apply for_loop_extends; [|exact Hq]. intros c G HG. apply IH; assumption.
+  - apply andb_true_iff in Hc. destruct Hc as [H1 H2].
+    pose proof (IHa H1 E base cur F q Hq) as Ha.
+    destruct (srun a E base cur F) as [[|] F']; cbn [snd] in *; [|exact Ha].
+    eapply extends_trans; [exact Ha|]. apply IHb; [exact H2|].
+    destruct Ha as [Ha|[b0 [t [_ Ha]]]]; rewrite Ha; [exact Hq | discriminate].
 Qed.
